@@ -24,11 +24,11 @@ PUBLIC_Q = [("isi", {}), ("isi", {"MRTS": 2 * U}), ("spike", {}), ("spike", {"MR
 
 def plan(tier):
     if tier == "quick":
-        specs = [("kernels", 2, [("dense", 1, 5), ("bounded", 3, 6, 7)], MENU_Q),
+        specs = [("kernels", 2, [("dense", 1, 5), ("bounded", 3, 6, 7), ("near", 2, 3)], MENU_Q),
                  ("public", 2, [("dense", 1, 4)], PUBLIC_Q), ("public", 3, [("dense", 1, 2)], PUBLIC_Q)]
         addL = 4
     else:
-        specs = [("kernels", 2, [("dense", 1, 7), ("bounded", 3, 8, 10)], MENU_T[::3]),
+        specs = [("kernels", 2, [("dense", 1, 7), ("bounded", 3, 8, 10), ("near", 2, 4)], MENU_T[::3]),
                  ("public", 2, [("dense", 1, 6)], PUBLIC_Q), ("public", 3, [("dense", 1, 4)], PUBLIC_Q)]
         addL = 5
     tasks, descs = [], []
@@ -294,8 +294,7 @@ def eval_add(r, kind, L):
 
 
 def check_state(r, k, masks, task):
-    trains = [lattice.times(m) for m in masks]
-    edges = lattice.edges(k)
+    trains, edges = pairs.trains_edges(k, masks)
     ns = pairs.nspikes(masks)
     if task["mode"] == "kernels":
         for mi, (m, ri, mt) in enumerate(task["menu"]):
